@@ -466,6 +466,21 @@ pub fn gen_mean(rng: &mut Rng, tier: &Tier) -> Vec<Case> {
             }
         }
     }
+    // a ring filled to the brim whose sum and weight are what a history of exactly those taps leaves behind: that IS a
+    // reached state, the window-mean clause applies from the first sample on (it pins down the order of the taps too)
+    for &n in &[1usize, 2, 3, 5, 8] {
+        for _ in 0..tier.n(6, 60) {
+            let taps: Vec<i64> = (0..n).map(|_| rng.range(-9, 9)).collect();
+            let sum: i64 = taps.iter().sum();
+            let ts: Vec<String> = taps.iter().map(|x| x.to_string()).collect();
+            let mut c = vec![format!("inject 1 mean N={} taps={} mean={} weight={}", n, csv(&ts), sum, n)];
+            for _ in 0..rng.range(1, 2 * n as i64 + 3) {
+                c.push(format!("f 1 {}", rat(rng)));
+            }
+            c.push("guts 1 taps".into());
+            cases.push(c);
+        }
+    }
     // machine integers: the division truncates toward zero (negative sums included)
     for &n in WIDTHS.iter() {
         for _ in 0..tier.n(20, 300) {
